@@ -211,9 +211,13 @@ class Circuit:
         """Wait until a running circuit is fully initialized."""
         await self._check_started()
         assert self._simtask is not None
-        await asyncio.wait(
-            [asyncio.create_task(self._init_done.wait()), self._simtask],
-            return_when=asyncio.FIRST_COMPLETED)
+        init_waiter = asyncio.create_task(self._init_done.wait())
+        try:
+            await asyncio.wait(
+                [init_waiter, self._simtask], return_when=asyncio.FIRST_COMPLETED)
+        finally:
+            # do not leave the helper task pending if the simulation ended first
+            init_waiter.cancel()
         if self._error is not None and not self._simtask.done():
             # the start has failed after the initialization of blocks (e.g. during
             # the very first evaluation); the simulation task is cleaning up
